@@ -48,7 +48,15 @@ fn spoil_bin(b: &[u8], pos: &str) -> Vec<u8> {
 
 /// build a minimal well-formed package whose digest tags are in the abstract state `d`
 pub fn materialise(d: &Value, pos: &str) -> Vec<u8> {
-    let payload: Vec<u8> = (0..37u8).map(|i| i.wrapping_mul(11)).collect();
+    // the payload is a gzip stream, so that the digest of what it decompresses to (recorded, truthfully, under the
+    // "alternate" tag, which verification has no business comparing with the payload) differs from the payload's own
+    let plain: Vec<u8> = (0..37u8).map(|i| i.wrapping_mul(11)).collect();
+    let payload: Vec<u8> = {
+        use std::io::Write;
+        let mut e = flate2::GzBuilder::new().mtime(0).write(Vec::new(), flate2::Compression::new(6));
+        e.write_all(&plain).unwrap();
+        e.finish().unwrap()
+    };
     let pay_sha = hex(&Sha256::digest(&payload));
     let mut h: Vec<(u32, u32, Value)> = vec![
         (1000, T_STRING, s_v("carrier")), (1001, T_STRING, s_v("1")), (1002, T_STRING, s_v("1")),
@@ -56,6 +64,7 @@ pub fn materialise(d: &Value, pos: &str) -> Vec<u8> {
         // an entry of every integer-like data type (rpm itself stores FILESTATES as CHAR): what is hashed are the header's
         // own bytes, whatever their types
         (1029, T_CHAR, json!([1, 0])), (1033, T_INT16, json!([0, 7])), (5009, T_INT64, json!([[0, 0, 0, 37]])), (1101, T_INT8, json!([3])),
+        (1125, T_STRING, s_v("gzip")), (5097, T_STRARR, s_v(&hex(&Sha256::digest(&plain)))),
     ];
     match d["payload"].as_str().unwrap() {
         "absent" => {}
@@ -238,6 +247,18 @@ pub fn run(args: &Args) {
                 Some(o) => t.emit(json!({"event":"Digest","origin":format!("table:{i}"),"d":derived,"case_d":c["d"],"pos":c["pos"],"outcome":o})),
                 None => t.emit(json!({"event":"ParseErr","origin":format!("table:{i}"),"case_d":c["d"]})),
             };
+            // the same file cut off behind the main header (no payload bytes at all): whatever digest of the payload is
+            // recorded, it is now compared with the digest of nothing
+            if i % 4 == 0 {
+                if let Some(l) = rawhdr::layout(&bytes) {
+                    let cutb = &bytes[..l.payload_at];
+                    let d2 = digest_state(cutb).unwrap_or(json!(null));
+                    match verify(cutb) {
+                        Some(o) => t.emit(json!({"event":"Digest","origin":format!("table-cut:{i}"),"d":d2,"pos":c["pos"],"outcome":o})),
+                        None => t.emit(json!({"event":"ParseErr","origin":format!("table-cut:{i}")})),
+                    };
+                }
+            }
             // the same row with the index entries in another order (a header need not be sorted to be read)
             if c["pos"] == "first" || i % 3 == 0 {
                 if let Some(rb) = reorder_index(&bytes, false) {
